@@ -78,7 +78,7 @@ check(
 check(
     "C14",
     "other",
-    "bounded symbolic verification of position normalisation only: the real Errors.report clamps and the location prefix rendered by Errors.format_messages_default are executed for every (line, column, end_line, end_column) incl. None/-1; obligations: the end position handed on and printed is never before the start, the printed column is 1-based and >= 1. The parser-equivalence half of the property and 'line exists / column within the line' are not applicable to this technique (external compiled front end; whole pipeline over programs) and are not claimed.",
+    "bounded symbolic verification of position normalisation only: the real Errors.report clamps and the location prefix rendered by Errors.format_messages_default are executed for every (line, column, end_line, end_column) incl. None/-1; obligations: the end position handed on and printed is never before the start, the printed column is 1-based and >= 1. Of the parser-equivalence half only the part that is mypy's own Python code is covered: BuildManager.parse_all (native-parser batches) must deserialise every file under its own path and the options that include its inline configuration (kernel shared with C17/K5; replay = native vs default parser runs). Equivalence of the external compiled front end itself and 'line exists / column within the line' are not applicable to this technique and are not claimed.",
     "trusted: z3; stub Errors self without scope/watchers; --pretty marker arithmetic only when the K3 section is present in evidence",
     "symbolic execution of real Python source with z3 (decision-replay)",
     "DESIGN.md 4/C14",
@@ -117,7 +117,7 @@ check(
 check(
     "C17",
     "other",
-    "(K1) z3 regular-expression equivalence, unbounded in name length, between the regex the real Options.compile_glob emits and the documented rule ('stars match zero or more module components') for every unstructured pattern of <= 3/4 components over {a,b,*}; (K2) symbolic execution of the real build_per_module_cache/clone_for_module/apply_changes on solver-chosen section sets in solver-chosen file order with symbolic option values: the resolved value must be the term of the winner under the documented precedence (concrete > unstructured, later wins > structured, more specific wins > global). Equivalence of configuration sources (flag table x source matrix) and inline comments are not covered.",
+    "(K1) z3 regular-expression equivalence, unbounded in name length, between the regex the real Options.compile_glob emits and the documented rule ('stars match zero or more module components') for every unstructured pattern of <= 3/4 components over {a,b,*}; (K2) symbolic execution of the real build_per_module_cache/clone_for_module/apply_changes on solver-chosen section sets in solver-chosen file order with symbolic option values: the resolved value must be the term of the winner under the documented precedence (concrete > unstructured, later wins > structured, more specific wins > global). (K3) every boolean flag of the real argparse table x config value x ini/toml through the real parse_section sets the same attribute as the flag (inversions no_/allow_/disallow_/show_ consistent; documented keys accepted); (K4) pyproject override tables vs the equivalent ini sections; (K5) inline configuration is in force when BuildManager.parse_all deserialises a batch. Non-boolean options and the parsing of inline comments are not covered.",
     "trusted: z3 (sequence/regex theory); translation of the emitted regex subset (fails closed); K2 takes unstructured membership from the real compile_glob. Known finding: leading '*'.",
     "z3 regex language equivalence + symbolic execution of real Python source (decision-replay)",
     "DESIGN.md 4/C17",
